@@ -348,6 +348,9 @@ impl AVP {
                 return Err(DecodeError::InvalidOriginalAVPLength(total_length));
             }
             let payload_length = total_length - Header::LENGTH;
+            if payload_length as usize > reader.len() {
+                return Err(DecodeError::InvalidOriginalAVPLength(total_length));
+            }
 
             // Decode payload
             let mut payload_reader = reader.subreader(payload_length as usize);
